@@ -161,6 +161,10 @@ func (p *Program) extractConst(cs ConstSite) (string, error) {
 	case "var":
 		g := p.Global(cs.Pkg, cs.Name)
 		if g == nil {
+			// declared as a constant instead of a variable: the same value
+			if v, ok := p.ConstValue(cs.Pkg, cs.Name); ok {
+				return v, nil
+			}
 			return "", fmt.Errorf("variable not found")
 		}
 		init := p.globalInit(g)
